@@ -492,6 +492,20 @@ func (g *genState) scriptRepeatedAddress() {
 	for _, p := range []Payload{{Kind: "ac", A: e, Addrs: l}, {Kind: "ap", A: e, Addrs: l, Seq: seq}, {Kind: "pe", A: e, Addrs: l, Seq: seq}} {
 		g.script = append(g.script, &TxSpec{Signer: g.signerOf(sender), Chain: g.chain, Nonce: g.freshNonce(), P: p})
 	}
+	// evaluations for one keyper, then a message that is wrong in two ways at once: that keyper again (already
+	// seen) next to the sender itself / an address outside the set, in either order
+	one := [][]byte{{7}}
+	g.script = append(g.script, &TxSpec{Signer: g.signerOf(sender), Chain: g.chain, Nonce: g.freshNonce(), P: Payload{Kind: "pe", A: e, Addrs: [][]byte{a.Bytes()}, Seq: one}})
+	outsider := common.BytesToAddress([]byte("verif-nobody"))
+	for _, bad := range [][]byte{sender.Bytes(), outsider.Bytes()} {
+		for _, order := range [][][]byte{{a.Bytes(), bad}, {bad, a.Bytes()}, {b.Bytes(), bad, a.Bytes()}} {
+			sq := [][]byte{}
+			for range order {
+				sq = append(sq, []byte{9})
+			}
+			g.script = append(g.script, &TxSpec{Signer: g.signerOf(sender), Chain: g.chain, Nonce: g.freshNonce(), P: Payload{Kind: "pe", A: e, Addrs: order, Seq: sq}})
+		}
+	}
 }
 
 // scriptBurst: one keyper fills a block with block-seen reports of increasing numbers (each changes the state)
@@ -521,6 +535,18 @@ func (g *genState) scriptRestart() {
 	}
 	sort.Slice(eons, func(i, j int) bool { return eons[i] < eons[j] })
 	e := eons[g.r.Intn(len(eons))]
+	if g.r.Chance(35) {
+		// one keyper changing its mind back and forth: failed, succeeded, failed, … (it still is one keyper)
+		ks := g.aim.App.DKGMap[e].Config.Keypers
+		if len(ks) > 0 {
+			k := ks[g.r.Intn(len(ks))]
+			for i := 0; i < 3+g.r.Intn(3); i++ {
+				g.script = append(g.script, &TxSpec{Signer: g.signerOf(k), Chain: g.chain, Nonce: g.freshNonce(),
+					P: Payload{Kind: "dr", A: e, Flag: i%2 == 1}})
+			}
+		}
+		return
+	}
 	for _, k := range g.aim.App.DKGMap[e].Config.Keypers {
 		g.script = append(g.script, &TxSpec{Signer: g.signerOf(k), Chain: g.chain, Nonce: g.freshNonce(),
 			P: Payload{Kind: "dr", A: e, Flag: g.r.Chance(15)}})
